@@ -162,6 +162,7 @@ func runReplayCase(c *verdict.Ctx, idx int, tmp string) {
 	net.Pump()
 	nd := net.Nodes[obs]
 	points := 3 + r.Intn(4)
+	emptyHeadRestartAt := map[int64]bool{} // heights during which the WAL was reopened on an empty head (-> #ENDHEIGHT 0 written there)
 	for p := 0; p < points; p++ {
 		switch r.Intn(4) {
 		case 0:
@@ -275,6 +276,10 @@ func runReplayCase(c *verdict.Ctx, idx int, tmp string) {
 				key := "replay-state-differs"
 				onlyStep := len(d) == 1 && live.Step != replayed.Step
 				switch {
+				case live.Height == cfg.InitialH && emptyHeadRestartAt[live.Height]:
+					// at the initial height catchupReplay looks for "#ENDHEIGHT 0"; a restart on an empty head (right after a
+					// rotation) writes another "#ENDHEIGHT 0" in the middle of that height's records and the search finds it first
+					key = "replay-starts-at-endheight-0-written-by-restart-on-empty-head-at-initial-height"
 				case onlyStep && replayed.Step == "RoundStepNewHeight" && cfg.Skip:
 					// with skip_timeout_commit the vote that completes the commit of h-1 also moves the node into
 					// round 0 of h; that vote sits before the end-of-height marker and is not replayed
@@ -296,6 +301,33 @@ func runReplayCase(c *verdict.Ctx, idx int, tmp string) {
 		}
 		if c.WantSample() && p == 1 && idx < 3 {
 			c.Sample(map[string]interface{}{"stream": "replay", "case": idx, "point": p, "live_state": live})
+		}
+		// ---- sometimes the node "restarts" here in the middle of the height: the WAL is closed and opened
+		// again the way the node does it (an empty head gets an #ENDHEIGHT 0 marker), possibly right after the
+		// head was rotated.  The state machine keeps what a successful replay would have restored (checked
+		// above); what changes is the WAL the later records go to and the next replay has to read through.
+		if r.Intn(3) == 0 {
+			if r.Intn(2) == 0 {
+				liveWAL.Group().RotateFile()
+				c.Count("replay.live_wal_rotated_before_restart", 1)
+				emptyHeadRestartAt[nd.CS.GetRoundState().Height] = true
+			}
+			_ = liveWAL.Stop()
+			liveWAL.Wait()
+			w, err := cs.NewWAL(walFile, autofile.GroupCheckDuration(time.Hour))
+			if err != nil {
+				c.HarnessError("reopen live wal: %v", err)
+				return
+			}
+			w.SetLogger(log.NewNopLogger())
+			w.SetFlushInterval(time.Hour)
+			if err := w.Start(); err != nil {
+				c.HarnessError("restart live wal: %v", err)
+				return
+			}
+			liveWAL = w
+			nd.CS.VerifSetWAL(w)
+			c.Count("replay.live_wal_restarts", 1)
 		}
 	}
 }
